@@ -26,6 +26,21 @@ history is modelled (KawinV.Flatten.Coupler, theorems deliverAll_history,
 unflattenC_flattenC_history, unflattenC_history_shapes, stale_sizes_misdeliver) and compared through
 the driver verb flat.hist, on real runs and on one Coupler object handed a history of states.
 
+Nested couplers / several couplers alive at once: a Coupler is a GenericModel, so it can be one of the models of another
+Coupler.  (1) forests of 1-3 model trees of depth 1-3 over leaf models with differently shaped states, flattenX / unflattenX
+(also of another vector of that length) called on them in any interleaving, every leaf entry tagged with its own numbers: the
+round trip must give every leaf its own structure, shapes and numbers back; the same operation sequence goes through the model
+KawinV.Flatten.runOps (Couplers are objects with an identity, the `_sizeRef` attributes live in a heap: theorems
+nested_unflatten_flatten, nested_roundtrip_interleaved, unflattenT_shapes, runOps_roundtrip; the variant with ONE size list
+shared by all instances breaks both: shared_sizes_break_nesting, shared_sizes_break_interleaving) through the driver verb
+flat.nest, including cases that use the SAME Coupler object twice (where the sizes are shared by construction).  (2) the real
+solver on nested topologies: scripted adversarial proposals / stop schedules (entry 'nested': every leaf must see the same
+accepted times, the whole time/step contract is judged with the effective proposal = minimum over ALL leaves, a stop request of
+any leaf ends the run, every Coupler in the tree records the accepted times) and layout/resize runs (entry 'nested': structure,
+shapes and CONTENT of every callback argument of every leaf, step bounds per solve call, preProcess count and setTimeInfo per
+leaf), also with an independent Coupler that flattens / unflattens its own state from inside the callbacks of a leaf of the
+running one (entry 'coupler+bystander').
+
 Numbers: 'dyadic' cases use few-bit dyadic rationals, on which + - * are exact in doubles: there
 model and implementation must agree exactly and the oracle is exact.  'general' cases use random
 doubles: time stamps are compared to 4 ulp, and the oracle allows the final time to exceed tf by
@@ -39,13 +54,14 @@ from vlib import Result, enc_list, f2b, Toks, close, ulps
 
 PROP = 'C05'
 META = {
-    'level_text': 'Lean 4 theorems, by induction over the solve loop with no bound on the number of steps and for EVERY proposal function and stop schedule (proposals are an inductive fin x | +inf | -inf | NaN with Python comparison semantics): accepted times strictly increase, lie in (t0, tf], every step is positive and <= maxFrac*(tf-t0), every step is >= minFrac*(tf-t0) except possibly the last which then equals the remaining time, exact arrival at tf within N steps when N*minFrac >= 1 (termination bound), a stop request ends the run at that step, the run ends only by arrival/stop/fuel; flatten/unflatten round trips and shape preservation for nested states (lists mixing scalars and arrays in every order: unflatten_flatten, unflatten_append) and for the Coupler size bookkeeping THROUGH ANY HISTORY OF RESIZES (sub-models returning states of another length from postProcess: deliverAll_history, unflattenC_flattenC_history, unflattenC_history_shapes; slicing with stale sizes fails: stale_sizes_misdeliver); time bookkeeping on the loop with the state carried along (runX): the time handed to postProcess is the previous time plus the step the iterator was given (step_time_bookkeeping), and the state of a model with right-hand side c after any run is x0 + c*(final time - t0), for Euler and Runge-Kutta, every proposal function and stop schedule (solveX_const, solveX_clock_euler, solveX_clock_rk4, solveX_clock_at_end). The executable model is tied to kawin/solver/Solver.py and kawin/GenericModel.py by differential correspondence with adversarial user models on every run, and the property predicate is evaluated directly on the real solver\'s observed step sequences and callback arguments.',
+    'level_text': 'Lean 4 theorems, by induction over the solve loop with no bound on the number of steps and for EVERY proposal function and stop schedule (proposals are an inductive fin x | +inf | -inf | NaN with Python comparison semantics): accepted times strictly increase, lie in (t0, tf], every step is positive and <= maxFrac*(tf-t0), every step is >= minFrac*(tf-t0) except possibly the last which then equals the remaining time, exact arrival at tf within N steps when N*minFrac >= 1 (termination bound), a stop request ends the run at that step, the run ends only by arrival/stop/fuel; flatten/unflatten round trips and shape preservation for nested states (lists mixing scalars and arrays in every order: unflatten_flatten, unflatten_append) and for the Coupler size bookkeeping THROUGH ANY HISTORY OF RESIZES (sub-models returning states of another length from postProcess: deliverAll_history, unflattenC_flattenC_history, unflattenC_history_shapes; slicing with stale sizes fails: stale_sizes_misdeliver) and for NESTED couplers (a Coupler among the models of a Coupler, any depth; inductive tree type CTree, every Coupler an object with its own size record in a heap): round trip for every tree of distinct Coupler objects whatever was on record before (nested_unflatten_flatten), undisturbed by flattenX calls on any other model trees in between (nested_roundtrip_interleaved) and under ANY interleaving of flattenX/unflattenX operations on a forest of live trees (runOps_roundtrip), every leaf receives its own structure, shapes and block of numbers for any vector the iterator returns (unflattenT_shapes, nested_unflatten_shapes); the variant with one size list shared by all Coupler instances fails on Coupler([Coupler([A,B]),C]) and on two couplers used in turn (shared_sizes_break_nesting, shared_sizes_break_interleaving); time bookkeeping on the loop with the state carried along (runX): the time handed to postProcess is the previous time plus the step the iterator was given (step_time_bookkeeping), and the state of a model with right-hand side c after any run is x0 + c*(final time - t0), for Euler and Runge-Kutta, every proposal function and stop schedule (solveX_const, solveX_clock_euler, solveX_clock_rk4, solveX_clock_at_end). The executable model is tied to kawin/solver/Solver.py and kawin/GenericModel.py by differential correspondence with adversarial user models on every run, and the property predicate is evaluated directly on the real solver\'s observed step sequences and callback arguments.',
     'level_note': 'Trusted: Lean kernel + Mathlib, axioms propext/Classical.choice/Quot.sound; the hand model equals the Python loop only as far as this run compared them; exact-field arithmetic instead of IEEE doubles (a final time one ulp above tf is IEEE rounding of c+(tf-c), outside the theorem and not flagged); proposals that are not numbers (None, arrays) and non-finite t0/tf are outside the statement; the default flattenX (np.hstack) is modelled on its documented domain (scalars and 1-D arrays), higher-rank arrays only through a flattenX override as kawin\'s own DiffusionModel does; minDtFrac = 0 with non-positive proposals never terminates (theorem no_progress_without_min; the property presupposes a positive minimum fraction).',
     'technique': 'Lean 4 proof over ordered fields (loop invariant) + model/implementation differential correspondence + direct oracle on observed runs',
     'design_ref': 'DESIGN.md section 6, C05',
 }
 LEAN_MODULES = ['KawinV.Props.C05']
-MONITORED = ['structure/shapes AND content of the state seen by getdXdt/getDt/correctdXdt/postProcess during real runs, also with states resized in postProcess (theorems unflatten_shapes, deliverAll_history are about the model of unflattenX / the Coupler bookkeeping; the call sites are observed)',
+MONITORED = ['nested couplers in real solver runs: the time/step contract is proved for every proposal function and stop schedule, so also for minimum-over-all-leaves / any-leaf-stops; that the nested run IS such a run is compared on every run (effective script through sol.runx, all leaves see the same accepted times)',
+             'structure/shapes AND content of the state seen by getdXdt/getDt/correctdXdt/postProcess during real runs, also with states resized in postProcess (theorems unflatten_shapes, deliverAll_history are about the model of unflattenX / the Coupler bookkeeping; the call sites are observed)',
              'bit-identity of an f = 1 entry with the time at every callback (theorem solveX_const is over exact fields)']
 ASSUMPTIONS = [
     't0 < tf finite, 0 < minDtFrac <= maxDtFrac (with minDtFrac = 0 and non-positive proposals the loop makes no progress: no_progress_without_min)',
@@ -778,6 +794,7 @@ def _mk_layout_model(j, spec, t0, exact, log, name):
             self.t = self.tX = float(t0)
             self.nsteps, self.ndt, self.seq = 0, 0, 0
             self.bad, self.clock_bad, self.times, self.applied = [], [], [], 0
+            self.npre, self.hook = 0, None
             self.resize = {int(k): v for k, v in spec['resize'].items()}
 
         # ---- what the callbacks must receive
@@ -804,8 +821,13 @@ def _mk_layout_model(j, spec, t0, exact, log, name):
         def getCurrentX(self):
             return self.t, self.X
 
+        def preProcess(self):
+            self.npre += 1
+
         def getdXdt(self, t, x):
             self._check('getdXdt', x, t)
+            if self.hook:
+                self.hook('getdXdt')
             return [type(r)(r) if np.ndim(r) == 0 else list(r) if isinstance(r, list) else np.array(r, float) for r in self.R]
 
         def getDt(self, dXdt):
@@ -854,6 +876,8 @@ def _mk_layout_model(j, spec, t0, exact, log, name):
 
         def postProcess(self, time, x):
             self._check('postProcess', x, time)
+            if self.hook:
+                self.hook('postProcess')
             self.times.append(float(time))
             self.nsteps += 1
             if len(self.times) > CAP:
@@ -876,7 +900,11 @@ def _mk_layout_model(j, spec, t0, exact, log, name):
 def gen_layout_case(rng, force=None):
     mode = rng.choice(['dyadic', 'dyadic', 'general'])
     entry = rng.choice(['coupler', 'coupler', 'coupler', 'model'])
+    if force in ('nested', 'bystander'):
+        entry = 'coupler'
     nm = rng.choice([2, 2, 3]) if entry == 'coupler' else 1
+    if force == 'nested':
+        nm = rng.choice([2, 3, 3, 4, 5])
     nsolve = rng.choice([1, 1, 2, 3])
     if mode == 'dyadic':
         t0 = rng.choice([0.0, 1.0, -2.0, 3.0, dy(rng, -8, 8, 16), 1024.0])
@@ -919,7 +947,16 @@ def gen_layout_case(rng, force=None):
             op = rng.choice(['grow', 'grow', 'shrink', 'shrink', 'growfront', 'shrinkfront', 'newitem', 'dropitem'])
             resize.setdefault(str(k), []).append([op, rng.randint(0, 3), rng.choice([1, 1, 2, 3, 6])])
         models.append(dict(layout=layout, props=props, resize=resize, ravel=ravel))
-    return dict(kind='layout-run', mode=mode, entry=entry, iterator=rng.choice(['euler', 'rk4']), t0=t0, sims=sims, mn=mn, mx=mx, models=models)
+    case = dict(kind='layout-run', mode=mode, entry=entry, iterator=rng.choice(['euler', 'rk4']), t0=t0, sims=sims, mn=mn, mx=mx, models=models)
+    if force == 'nested':
+        case['entry'] = 'nested'
+        case['topology'] = gen_topology(rng, nm, rng.choice([2, 2, 3]))
+    if force == 'bystander' or (force == 'nested' and rng.random() < 0.3):
+        # an independent Coupler (other sizes) whose flattenX / unflattenX are called from inside the callbacks of leaf 0 while the run goes on
+        case['bystander'] = [[list(np.shape(x)) for x in gen_state(rng)] for _ in range(rng.choice([2, 2, 3]))]
+        if force == 'bystander':
+            case['entry'] = 'coupler+bystander'
+    return case
 
 
 def layout_witnesses():
@@ -940,6 +977,14 @@ def layout_witnesses():
                          ([A({'10': [['growfront', 0, 2]]}), B({}), C({'12': [['shrink', 1, 1]], '13': [['newitem', 0, 2]]})], [1.0, 1.0]),
                          ([A({'1': [['shrink', 0, 3]], '2': [['grow', 0, 2]], '5': [['dropitem', 0, 0]]}), B({})], [1.0])):
             out.append(dict(kind='layout-run', mode='dyadic', entry='coupler', iterator=it, t0=0.0, sims=sims, mn=1 / 64, mx=1.0, models=ms))
+        # a Coupler among the models of a Coupler (2 and 3 levels), also with a resize inside the inner Coupler, two solve calls
+        for topo, ms, sims in (([[0, 1], 2], [A({}), B({}), C({})], [1.0]),
+                               ([0, [1, [2, 0 + 3]]], [C({}), A({}), B({'3': [['grow', 0, 2]]}), A({})], [1.0, 0.5]),
+                               ([[0, 1]], [A({'2': [['shrink', 0, 1]]}), B({})], [1.0])):
+            out.append(dict(kind='layout-run', mode='dyadic', entry='nested', iterator=it, t0=0.0, sims=sims, mn=1 / 64, mx=1.0, models=ms, topology=topo))
+        # an independent Coupler flattened / unflattened from inside the callbacks of a running one
+        out.append(dict(kind='layout-run', mode='dyadic', entry='coupler+bystander', iterator=it, t0=0.0, sims=[1.0], mn=1 / 64, mx=1.0,
+                        models=[A({}), B({})], bystander=[[[7], []], [[2]]]))
     # coarse minimum step, simulation time not a multiple of the step, t0 != 0
     for it in ('euler', 'rk4'):
         for mn in (1e-3, 4e-3, 0.05, 0.3):
@@ -981,16 +1026,47 @@ def _layout_run(case):
                                    [float(v) for xs in x for xi in xs for v in np.ravel(np.asarray(xi, float))]))
 
     top = ms[0]
-    if case['entry'] == 'coupler':
+    cps = []
+    if case.get('topology'):
+        top = build_topology(case['topology'], ms, Coupler, couplers=cps)
+        top.time = np.array([t0])
+    elif case['entry'] != 'model':
         top = RecCoupler(ms)
         top.time = np.array([t0])
+    out['by_bad'] = []
+    if case.get('bystander'):
+        from kawin.GenericModel import GenericModel
+        by = Coupler([GenericModel() for _ in case['bystander']])
+        bX = [[700.5 + 16 * j + i if not sh else (700.0 + 16 * j + i + 0.25 * np.arange(int(np.prod(sh)), dtype=float)).reshape(tuple(sh)) for i, sh in enumerate(shp)]
+              for j, shp in enumerate(case['bystander'])]
+        bflat = [None]
+
+        def hook(where):
+            # getdXdt: the bystander flattens (between the running coupler's flattenX and unflattenX calls);
+            # postProcess: the bystander unflattens what it flattened before
+            try:
+                if where == 'getdXdt' or bflat[0] is None:
+                    bflat[0] = by.flattenX(bX)
+                else:
+                    Y = by.unflattenX(bflat[0], bX)
+                    same = len(Y) == len(bX) and all(cfp(a) == cfp(b) and all(np.array_equal(np.asarray(u, float), np.asarray(v, float)) for u, v in zip(a, b)) for a, b in zip(bX, Y))
+                    if not same and len(out['by_bad']) < 2:
+                        out['by_bad'].append('the independent Coupler did not get its own state back from unflattenX(flattenX(X), X) (called from %s of a leaf of the running one)' % where)
+            except Exception as e:
+                if len(out['by_bad']) < 2:
+                    out['by_bad'].append('flattenX / unflattenX of the independent Coupler raised %s: %s (called from %s of a leaf of the running one)' % (type(e).__name__, e, where))
+        ms[0].hook = hook
     tf = t0
+    out['calls'] = []
     try:
         for sim in case['sims']:
             tstart = top.getCurrentX()[0]
             tf = tstart + sim
+            n0 = len(ms[0].times)
             top.solve(sim, solverType=it, minDtFrac=case['mn'], maxDtFrac=case['mx'])
             out['ends'].append((float(tf), float(ms[0].times[-1]) if ms[0].times else float(tstart)))
+            out['calls'].append((float(tstart), float(sim), n0, len(ms[0].times),
+                                 [(float(getattr(m, 'initialTime', NAN)), float(getattr(m, 'deltaTime', NAN)), float(getattr(m, 'finalTime', NAN))) for m in ms]))
     except _Cap:
         out['capped'] = True
     except Exception as e:
@@ -998,8 +1074,10 @@ def _layout_run(case):
         tb = traceback.extract_tb(e.__traceback__)
         where = next(('%s:%d' % (fr.filename.split('/')[-1], fr.lineno) for fr in reversed(tb) if '/kawin/' in fr.filename), '')
         out['err'] = '%s: %s%s' % (type(e).__name__, e, ' (at %s)' % where if where else '')
-        if case['entry'] == 'coupler':
+        if case['entry'] != 'model':
             out['sizes_at_failure'] = list(getattr(top, '_sizeRef', None) or [])
+    out['npre'] = [m.npre for m in ms]
+    out['inner_times'] = [np.asarray(q.time, float).tolist()[1:] for q in cps if q is not top]
     out['bad'] = [b for m in ms for b in m.bad]
     out['clock_bad'] = [b for m in ms for b in m.clock_bad]
     out['times'] = list(ms[0].times)
@@ -1047,17 +1125,49 @@ def layout_oracle(res, case, run):
         prev = t
     if any(st != run['times'] for st in run['sub_times']):
         res.violate('coupler-submodel-steps', 'coupled models saw different accepted times', desc, [st[:4] for st in run['sub_times']], run['times'][:4])
+    for b in run.get('by_bad', [])[:1]:
+        res.violate('independent-coupler-disturbed-' + case['iterator'], b, desc, b, 'X')
+    if case.get('topology') or case.get('bystander'):
+        # the time / step contract for EVERY leaf of a nested run (all leaves saw the same accepted times: checked above)
+        times = run['times']
+        for k, (tstart, sim, n0, n1, info) in enumerate(run.get('calls', [])):
+            seg = [tstart] + times[n0:n1]
+            tol = 0.0 if exact else 8 * math.ulp(max(abs(tstart), abs(tstart + sim)))
+            dts = [b - a for a, b in zip(seg, seg[1:])]
+            for i, d in enumerate(dts):
+                if d > case['mx'] * sim + tol:
+                    res.violate('step-above-max-' + site, 'solve call %d: step %d = %r exceeds maxDtFrac*simTime = %r' % (k + 1, i, d, case['mx'] * sim), desc, d, '<= %r' % (case['mx'] * sim))
+                    break
+                if d < case['mn'] * sim - tol and i < len(dts) - 1:
+                    res.violate('step-below-min-' + site, 'solve call %d: step %d = %r is below minDtFrac*simTime = %r and is not the last one' % (k + 1, i, d, case['mn'] * sim), desc, d,
+                                '>= %r' % (case['mn'] * sim))
+                    break
+            if any(t > tstart + sim + tol for t in seg):
+                res.violate('overshoot-' + site, 'solve call %d: an accepted time exceeds the end time %r' % (k + 1, tstart + sim), desc, max(seg), '<= %r' % (tstart + sim))
+            for j, (ti, dt_, tf_) in enumerate(info):
+                if not (ti == tstart and dt_ == sim and tf_ == tstart + sim):
+                    res.violate('nested-leaf-timeinfo', 'solve call %d: leaf model %d was told (start, duration, end) = %r, the run is (%r, %r, %r)' % (k + 1, j, (ti, dt_, tf_), tstart, sim, tstart + sim),
+                                desc, [ti, dt_, tf_], [tstart, sim, tstart + sim])
+                    break
+        if any(n != len(times) for n in run.get('npre', [])):
+            res.violate('nested-leaf-preprocess-count', 'preProcess of the leaf models was called %s times, %d steps were accepted' % (run['npre'], len(times)), desc, run['npre'], len(times))
+        for q in run.get('inner_times', []):
+            if [float(t) for t in q] != times:
+                res.violate('nested-coupler-inner-clock', 'the time record of a Coupler that is a sub-model of another Coupler does not hold the accepted times', desc, q[:5], times[:5])
 
 
 def layout_cases(ctx, res, oracle_only, nmul=1):
     rng = ctx.rng
     N = ctx.n(140, 2500) * nmul
     cases = layout_witnesses() + [gen_layout_case(rng, force='resize' if k % 2 == 0 else None) for k in range(N)]
+    cases += [gen_layout_case(rng, force='nested' if k % 4 else 'bystander') for k in range(ctx.n(60, 1000) * nmul)]
     lines, keep = [], []
     for c in cases:
         run = layout_run(c)
         nres = run['applied']
         res.case(('layout', c['entry'], c['iterator'], c['mode'], c['t0'], repr(c['sims']), c['mn'], c['mx'], repr(c['models'])), len(run['times']) >= 2)
+        if c.get('topology'):
+            res.count('layout-run:nested-depth:%d' % topo_depth(c['topology']))
         res.count('layout-run:' + c['entry']); res.count('layout-run:iter:' + c['iterator']); res.count('layout-run:solve-calls:%d' % len(c['sims']))
         res.count('layout-run:resizes-applied:' + ('0' if nres == 0 else '1' if nres == 1 else '2-3' if nres <= 3 else '>=4'))
         if c['mode'] == 'general':
@@ -1351,7 +1461,7 @@ def run_nested_flat(case):
             if distinct:
                 tot = int(sum(int(np.prod(sh)) for l in tree_leaves(t) for sh in l[2]))
                 rs = getattr(top, '_sizeRef', None)
-                if flat.ndim != 1 or len(flat) != tot or rs is None or sum(rs) != tot:
+                if flat.ndim != 1 or len(flat) != tot or (rs is not None and sum(rs) != tot):
                     finds.append(('%s-sizeref' % cls, 'operation %d: flattenX of tree %d gave a vector of shape %s and sizes %s on record, the state has %d numbers' % (
                         k, i, flat.shape, rs, tot), [list(flat.shape), rs], tot))
             continue
@@ -1470,6 +1580,9 @@ def corr(ctx, oracle_only=False, nmul=1):
                 'min step fractions 1e-8 ... 0.3 (incl. 1e-3, 2e-3, 4e-3), simulation times that are not multiples of the step, t0 != 0, scripted resizes in postProcess '
                 '(grow/shrink at either end, entries appearing/disappearing), content of every callback argument compared with the per-entry constant-derivative prediction; '
                 'one Coupler object through histories of 2-8 differently sized states; '
+                'nested couplers: forests of 1-3 model trees of depth 1-3 with tagged leaf states under interleaved flattenX/unflattenX/unflattenX-of-another-vector operations '
+                '(through the real classes and through KawinV.Flatten.runOps), some with the same Coupler object used twice; solver runs on nested topologies of 2-5 leaves '
+                '(scripted proposals/stops and layout/resize runs with content checks), also with an independent Coupler used from inside the callbacks; '
                 'non-trivial = at least 2 accepted steps; distinct = (entry, iterator, config, script)')
     rng = ctx.rng
     N = ctx.n(500, 12000) * nmul
